@@ -4,7 +4,7 @@ DESIGN = {
 }
 _A = ["TLC 1.8 and its Json/IOUtils overrides", "projection of NaiveDate to its day number, of DateTime<Tz> to (naive_utc, offset seconds)"]
 PROPS = {
-    "C08": dict(design=["DateOps", "Calendar"], drive="C08",
+    "C08": dict(design=["DateOps", "Calendar"], drive="C08", trace_cfgs={"Trace_DateTimeTz": "Trace_DateTimeTz.cfg"},
                 level_text="DateOps.tla defines month stepping (exact year-month move, clamped day), single-field replacement, week bounds, n-th weekday, years elapsed, quarter, "
                            "CE year and month lengths on top of the first-principles Calendar; MC_DateOps checks the statement's laws and documentation anchors; every recorded call on "
                            "NaiveDate/NaiveDateTime with u32/i32 extremes is validated by TLC.",
